@@ -879,3 +879,53 @@ impl<'a> Gen<'a> {
         self.finish_block(sel, out, "cte", true)
     }
 }
+
+
+/// Targeted shape `shape:global-agg-clustered` (about 1 spec-mode case in 8 of `family_main`): a scalar aggregate
+/// `SELECT MIN(c), MAX(c), COUNT(c) [, SUM(c)] FROM t [WHERE id >= k]`, or `SELECT g, MIN(c), COUNT(DISTINCT d) FROM t GROUP BY g`,
+/// over a BIGINT / INTEGER / DATE / DOUBLE / VARCHAR column `c` with a NULL share ≥ 30 % — to be run under layout mem8c clustered on
+/// exactly `c` with a batch count whose last (first) worker chunk of ceil(k/4) consecutive batches is all-NULL in `c`.
+/// Returns the statement and (table, column, NULLs first?, batches).
+pub fn clustered_agg_case(r: &mut Rng, cat: &Catalog) -> Option<(Generated, usize, usize, bool, usize)> {
+    use super::ColTy;
+    let mut cands = vec![];
+    for (t, tb) in cat.tables.iter().enumerate() {
+        let n = tb.rows.len();
+        if n < 12 { continue; }
+        for (c, cs) in tb.cols.iter().enumerate().skip(1) {
+            if cs.cty == ColTy::Bool || cs.special || cs.boundary { continue; }
+            let nulls = tb.rows.iter().filter(|row| row[c].is_null()).count();
+            if nulls * 10 >= n * 3 && nulls < n { cands.push((t, c)); }
+        }
+    }
+    if cands.is_empty() { return None; }
+    let (t, c) = *r.pick(&cands);
+    let tb = &cat.tables[t];
+    let a = "x1".to_string();
+    let col = |i: usize| Expr::Col { i, sql: format!("{}.{}", a, tb.cols[i].name) };
+    let from = Rel::Table { t, name: tb.name.clone(), alias: a.clone() };
+    let numeric_int = matches!(tb.cols[c].cty, ColTy::I64 | ColTy::I32);
+    // INTEGER arguments of MIN / MAX are cast (the engine has no MIN/MAX over Int32: an error, not an answer)
+    let arg = |e: Expr| if tb.cols[c].cty == ColTy::I32 { Expr::Cast(Box::new(e), Ty::Int) } else { e };
+    let mut tags: Vec<String> = vec!["s:clustered".into(), "shape:global-agg-clustered".into(), "f:agg".into(), "f:minmax".into(), format!("f:clustered_{}", tb.cols[c].cty.name())];
+    let others: Vec<usize> = (1..tb.cols.len()).filter(|&i| i != c && tb.cols[i].cty != ColTy::Bool && tb.cols[i].cty != ColTy::F64 && !tb.cols[i].special).collect();
+    let sel = if others.is_empty() || r.chance(3, 5) {
+        let mut aggs = vec![AggCall { f: AggFn::Min, arg: Some(arg(col(c))), distinct: false }, AggCall { f: AggFn::Max, arg: Some(arg(col(c))), distinct: false },
+                            AggCall { f: AggFn::Count, arg: Some(col(c)), distinct: false }];
+        if numeric_int && r.chance(1, 2) { aggs.push(AggCall { f: AggFn::Sum, arg: Some(col(c)), distinct: false }); tags.push("f:sum".into()); }
+        let where_ = if r.chance(1, 2) { tags.push("f:filter".into()); Some(Expr::bin(BinOp::Ge, col(0), Expr::lit_i(r.range(0, 3)))) } else { None };
+        let proj = aggs.iter().enumerate().map(|(i, ag)| (Expr::Col { i, sql: ag.sql() }, format!("q{}", i + 1))).collect();
+        Select { from: Some(from), where_, group: Some(Group { keys: vec![], aggs, sets: None }), having: None, proj, distinct: false }
+    } else {
+        let g = *r.pick(&others);
+        let d = if others.len() > 1 { *r.pick(&others) } else { 0 };
+        let aggs = vec![AggCall { f: AggFn::Min, arg: Some(arg(col(c))), distinct: false }, AggCall { f: AggFn::Count, arg: Some(col(d)), distinct: true }];
+        tags.push("f:agg_distinct".into()); tags.push("f:group_clustered".into());
+        let proj = vec![(Expr::Col { i: 0, sql: col(g).sql() }, "q1".to_string()), (Expr::Col { i: 1, sql: aggs[0].sql() }, "q2".to_string()), (Expr::Col { i: 2, sql: aggs[1].sql() }, "q3".to_string())];
+        Select { from: Some(from), where_: None, group: Some(Group { keys: vec![col(g)], aggs, sets: None }), having: None, proj, distinct: false }
+    };
+    // batch counts whose last / first chunk of ceil(k/4) batches holds ≤ 25 % of the rows
+    let k = *r.pick(&[7usize, 8, 10, 11, 12]);
+    tags.sort();
+    Some((Generated { q: QueryExpr::of(Body::Select(Box::new(sel))), tags, engine_defined: false, out: vec![] }, t, c, r.chance(1, 2), k))
+}
